@@ -296,6 +296,64 @@ class Fn:
             return env[l]
         return self.local_term(l)
 
+    def uses(self, l):
+        """every read of local l: list of dicts
+        {'k': 'arg', 'bb', 'call', 'i', 'whole'} | {'k': 'rv', 'bb', 'si', 'rk', 'dest', 'whole', 'rv'} |
+        {'k': 'switch', 'bb'} | {'k': 'drop', 'bb'} | {'k': 'assert', 'bb'}
+        `whole` is True when the operand/place is exactly the local (no projection)."""
+        if not hasattr(self, '_uses'):
+            u = defaultdict(list)
+
+            def op_use(o, rec):
+                if o.get('k') in ('copy', 'move'):
+                    pl = o['place']
+                    r = dict(rec)
+                    r['whole'] = not pl['p']
+                    r['mode'] = o['k']
+                    r['proj'] = pl['p']
+                    u[pl['l']].append(r)
+                    for e in pl['p']:
+                        if e['k'] == 'index':
+                            u[e['l']].append({'k': 'index', 'bb': rec['bb'], 'whole': True})
+
+            def place_use(pl, rec):
+                r = dict(rec)
+                r['whole'] = not pl['p']
+                r['proj'] = pl['p']
+                r['mode'] = 'place'
+                u[pl['l']].append(r)
+
+            for bi, blk in enumerate(self.blocks):
+                if blk['cleanup']:
+                    continue
+                for si, st in enumerate(blk['stmts']):
+                    rv = st['rv']
+                    rec = {'k': 'rv', 'bb': bi, 'si': si, 'rk': rv['k'], 'dest': st['place'], 'rv': rv}
+                    for key in ('o', 'a', 'b'):
+                        if key in rv and isinstance(rv[key], dict):
+                            op_use(rv[key], rec)
+                    for o in rv.get('ops', []):
+                        op_use(o, rec)
+                    if 'place' in rv:
+                        place_use(rv['place'], rec)
+                    # a projected destination reads its base through derefs
+                    if st['place']['p'] and any(e['k'] == 'deref' for e in st['place']['p']):
+                        place_use(st['place'], {'k': 'store-through', 'bb': bi, 'si': si})
+                t = blk['term']
+                if t['k'] == 'call':
+                    c = self.call_at(bi)
+                    for i, a in enumerate(t['args']):
+                        op_use(a, {'k': 'arg', 'bb': bi, 'call': c, 'i': i})
+                    op_use(t['func'], {'k': 'callee', 'bb': bi, 'call': c})
+                elif t['k'] == 'switch':
+                    op_use(t['discr'], {'k': 'switch', 'bb': bi})
+                elif t['k'] == 'drop':
+                    place_use(t['place'], {'k': 'drop', 'bb': bi})
+                elif t['k'] == 'assert':
+                    op_use(t['cond'], {'k': 'assert', 'bb': bi})
+            self._uses = u
+        return self._uses.get(l, [])
+
     def calls(self):
         if self._calls is None:
             self._calls = {}
